@@ -45,7 +45,12 @@ type State struct {
 	dead      bool
 	panicV    *SVal // non-nil while a panic propagates
 	lastPhi   *ssa.BasicBlock
+	// arrays given back to a pool on this path (with the condition under which they were): their elements must not be
+	// read any more - the next holder of the pool object writes them (C05 / C06)
+	gone []goneRef
 }
+
+type goneRef struct{ ref, cond string }
 
 func (s *State) clone() *State {
 	n := &State{
@@ -59,6 +64,7 @@ func (s *State) clone() *State {
 		trail:     append([]string(nil), s.trail...),
 		panicV:    s.panicV,
 		caseName:  s.caseName, caseEntry: s.caseEntry,
+		gone:      append([]goneRef(nil), s.gone...),
 	}
 	for k, v := range s.vals {
 		n.vals[k] = v
